@@ -60,7 +60,9 @@ def main(argv):
     try:
         env = dict(os.environ, PYTHONPATH=os.path.join(scratch, 'src'), PYTHONDONTWRITEBYTECODE='1')
         env.pop('XDOCTEST_VERIF', None)
-        demo = ['/venv/bin/python', os.path.join(d, 'DEMO.py')]
+        # (the demonstration runs from the root of the tree it judges: some locate the sources relative to themselves)
+        shutil.copy(os.path.join(d, 'DEMO.py'), os.path.join(scratch, 'DEMO.py'))
+        demo = ['/venv/bin/python', os.path.join(scratch, 'DEMO.py')]
         p0 = sh(demo, env=env, cwd=scratch, timeout=900)
         ran.append('demo on the unchanged tree: exit %d' % p0.returncode)
         pa = sh(['git', '-C', scratch, 'apply', os.path.join(d, 'patch.diff')])
